@@ -38,6 +38,19 @@ SHAPES_B = '''   This time prefer one of these shapes (they are what really gets
    It must **need something specific to manifest** - not something ordinary use would expose at once, and not blatant sabotage.'''
 
 
+SHAPES_C = '''   This time prefer one of these shapes (they are what really gets committed, and the hardest to notice):
+   * **compatibility / modernisation**: adapting to a newer Python or dropping an old one (ast node classes and their fields, deprecated
+     importlib / inspect / re APIs, `str.removeprefix`, walrus, `zip(strict=True)`, `dict` ordering assumptions), removing a
+     "legacy" branch that still had one caller - with one edge that differs;
+   * **hardening / robustness**: extra escaping or un-escaping, a limit on size or depth, stricter validation of names or values,
+     sanitising input, defensive copies, a default changed to the "safer" one - a little too eager, or applied in the wrong layer;
+   * **debugging / observability**: richer error context, extra logging, source annotations, a debug-mode behaviour that leaks into
+     the normal mode, `__repr__`/`__str__` changes that something else depended on;
+   * **state and lifetime**: a cache or registry keyed slightly wrong, invalidated too early or too late, lazily initialised state,
+     state moved from instance to class or module (or back), an object kept alive or shared across instances, renders or threads.
+   It must **need something specific to manifest** - not something ordinary use would expose at once, and not blatant sabotage.'''
+
+
 def main(rd, pids):
     props = {}
     for line in open(os.path.join(VERIF, 'properties.jsonl')):
@@ -94,7 +107,7 @@ different clause of the property and a different mechanism:
 * anything you noticed about the *unmodified* code that already seems to contradict the property (with a minimal
   reproduction), if you came across it - do not go looking for long.
 ''' % {'wt': wt, 'pid': pid, 'title': p['title'], 'statement': p['statement'], 'quant': p['quantifier'],
-       'anchors': json.dumps(p['anchors']), 'shapes': SHAPES_B if os.environ.get('SEED_SHAPES') == 'B' else SHAPES,
+       'anchors': json.dumps(p['anchors']), 'shapes': {'B': SHAPES_B, 'C': SHAPES_C}.get(os.environ.get('SEED_SHAPES'), SHAPES),
        'earlier': '\n'.join('* ' + e for e in earlier.get(pid, [])) or '* (none)'}
         open(os.path.join(rd, 'TASK_%s.md' % pid), 'w').write(t)
     print('wrote', len(pids or props), 'task files in', rd)
